@@ -20,6 +20,21 @@ Conventions (the only interpretation done here):
   x: T = e                                  SAssign x e         (annotation must be a plain name; it has no run-time effect)
   raise SerializationError(<message>)       SRaise              (the message expression is not translated)
   `data` / `writer` may only occur in the positions above and may not be assigned.
+
+The `deserialize` method of the same classes is parsed by `DParser` (same principles) into `dstmt` terms of coq/Model/PyStmtR.v:
+  reader.get_<m>() / get_fixed_*(e, b) / get_bytes(e)     DGet / DGetFixed / DGetBytes     (b a literal True / False)
+  reader.remaining / .position / .chunked_reading_mode      DRemaining / DPosition / DMode;   `= e` on the last one: DSSetMode
+  reader.next_chunk()                                       DSNextChunk
+  bytes(e), int(a / b), [], E(e)                            DBytesOf, DIntDiv, DEmptyList, DEnumOf "E"  (E an IntEnum class of the
+                                                            package declared with metaclass=ProtocolEnumMeta)
+  A.B.deserialize(reader)                                   DDeser "A.B"
+  A.B(kw1=x1, kw2=x2)  (keywords only, local variables)     DNew "A.B" [(kw1, x1); (kw2, x2)]
+  xs.append(e)                                              DSAppend "xs" e
+  x._byte_size = e                                          DSSetByteSize "x" e
+  x = e  /  x: <any annotation> = e                         DSAssign x e   (the annotation of a local variable is not evaluated)
+  an expression statement                                   DSExpr e
+  `reader` may only occur in the positions above; no name that the method uses as a global (a class, an enum, int, bytes,
+  range) or `reader` may be assigned anywhere in the method (an assignment would make it a local of the whole function).
 """
 import ast
 
@@ -202,6 +217,185 @@ class Parser:
         return self.block(body)
 
 
+RMETH = {'get_byte': 'GByte', 'get_char': 'GChar', 'get_short': 'GShort', 'get_three': 'GThree', 'get_int': 'GInt',
+         'get_string': 'GString', 'get_encoded_string': 'GEncString'}
+RFIXED = {'get_fixed_string': 'false', 'get_fixed_encoded_string': 'true'}
+RATTR = {'remaining': 'DRemaining', 'position': 'DPosition', 'chunked_reading_mode': 'DMode'}
+
+
+class DParser:
+    """the `deserialize` method -> list dstmt (coq/Model/PyStmtR.v)"""
+
+    def __init__(self, cls, enums, open_enums):
+        self.cls, self.enums, self.open_enums = cls, enums, open_enums
+        self.assigned, self.globals_used = set(), set()
+
+    def fail(self, node, why):
+        raise Unparsed(self.cls, getattr(node, 'lineno', 0), ast.dump(node) if isinstance(node, ast.AST) else repr(node), why)
+
+    def clsname(self, e):
+        d = dotted(e)
+        if d is None or d.split('.')[0] == 'reader':
+            self.fail(e, 'class name expected')
+        self.globals_used.add(d.split('.')[0])
+        return d
+
+    def is_reader(self, e):
+        return isinstance(e, ast.Name) and e.id == 'reader'
+
+    # ---- expressions
+    def expr(self, e):
+        X = self.expr
+        if isinstance(e, ast.Constant):
+            v = e.value
+            if v is None:
+                return "DNone"
+            if type(v) is bool:
+                return f"(DBool {'true' if v else 'false'})"
+            if type(v) is int:
+                return f"(DInt {cz(v)})"
+            self.fail(e, 'constant')
+        if isinstance(e, ast.Name):
+            if e.id == 'reader':
+                self.fail(e, 'bare reader')
+            return f"(DVar {cs(e.id)})"
+        if isinstance(e, ast.Attribute):
+            if self.is_reader(e.value):
+                if e.attr in RATTR:
+                    return RATTR[e.attr]
+                self.fail(e, 'attribute of reader')
+            if isinstance(e.value, ast.Name) and e.value.id in self.enums:
+                mem = dict(self.enums[e.value.id])
+                if e.attr in mem:
+                    self.globals_used.add(e.value.id)
+                    return f"(DConst {cs(e.value.id)} {cs(e.attr)} {cz(mem[e.attr])})"
+                self.fail(e, 'no such enum member')
+            self.fail(e, 'attribute')
+        if isinstance(e, ast.List) and not e.elts:
+            return "DEmptyList"
+        if isinstance(e, ast.Call):
+            f, a, kw = e.func, e.args, e.keywords
+            if isinstance(f, ast.Attribute) and self.is_reader(f.value):
+                if kw:
+                    self.fail(e, 'reader method with keywords')
+                if f.attr in RMETH and not a:
+                    return f"(DGet {RMETH[f.attr]})"
+                if f.attr in RFIXED and len(a) == 2 and isinstance(a[1], ast.Constant) and type(a[1].value) is bool:
+                    return f"(DGetFixed {RFIXED[f.attr]} {X(a[0])} {'true' if a[1].value else 'false'})"
+                if f.attr == 'get_bytes' and len(a) == 1:
+                    return f"(DGetBytes {X(a[0])})"
+                self.fail(e, 'reader method')
+            if isinstance(f, ast.Attribute) and f.attr == 'deserialize' and not kw and len(a) == 1 and self.is_reader(a[0]):
+                return f"(DDeser {cs(self.clsname(f.value))})"
+            if isinstance(f, ast.Name) and not kw:
+                if f.id == 'bytes' and len(a) == 1:
+                    self.globals_used.add('bytes')
+                    return f"(DBytesOf {X(a[0])})"
+                if f.id == 'int' and len(a) == 1 and isinstance(a[0], ast.BinOp) and isinstance(a[0].op, ast.Div):
+                    self.globals_used.add('int')
+                    return f"(DIntDiv {X(a[0].left)} {X(a[0].right)})"
+                if f.id in self.open_enums and len(a) == 1:
+                    self.globals_used.add(f.id)
+                    return f"(DEnumOf {cs(f.id)} {X(a[0])})"
+            if not a and dotted(f) is not None and not (isinstance(f, ast.Name) and f.id in self.enums):
+                # Cls(kw=var, ...)
+                args = []
+                for k in kw:
+                    if k.arg is None or not isinstance(k.value, ast.Name) or k.value.id == 'reader':
+                        self.fail(e, 'constructor argument that is not kw=<local variable>')
+                    args.append(f"({cs(k.arg)}, {cs(k.value.id)})")
+                if dotted(f) in ('int', 'bytes', 'range', 'len', 'bool', 'str', 'list', 'tuple', 'dict', 'set'):
+                    self.fail(e, 'builtin called as a constructor')
+                return f"(DNew {cs(self.clsname(f))} [{'; '.join(args)}])"
+            self.fail(e, 'call')
+        if isinstance(e, ast.Compare):
+            if len(e.ops) != 1:
+                self.fail(e, 'chained comparison')
+            op, l, r = e.ops[0], e.left, e.comparators[0]
+            if type(op) in CMP:
+                return f"(DCmp {CMP[type(op)]} {X(l)} {X(r)})"
+            self.fail(e, 'comparison operator')
+        if isinstance(e, ast.BinOp) and isinstance(e.op, (ast.Add, ast.Sub)):
+            return f"(DBin {'BAdd' if isinstance(e.op, ast.Add) else 'BSub'} {X(e.left)} {X(e.right)})"
+        self.fail(e, 'expression')
+
+    # ---- statements
+    def local(self, node, name):
+        if name == 'reader':
+            self.fail(node, 'assignment to reader')
+        self.assigned.add(name)
+        return cs(name)
+
+    def block(self, stmts):
+        return "[" + "; ".join(self.stmt(s) for s in stmts) + "]"
+
+    def stmt(self, s):
+        X = self.expr
+        if isinstance(s, ast.Expr):
+            c = s.value
+            if isinstance(c, ast.Call) and not c.keywords and isinstance(c.func, ast.Attribute):
+                base, meth, a = c.func.value, c.func.attr, c.args
+                if self.is_reader(base) and meth == 'next_chunk' and not a:
+                    return "DSNextChunk"
+                if isinstance(base, ast.Name) and not self.is_reader(base) and meth == 'append' and len(a) == 1:
+                    return f"DSAppend {cs(base.id)} {X(a[0])}"
+            return f"DSExpr {X(c)}"
+        if isinstance(s, ast.Assign) and len(s.targets) == 1 and s.type_comment is None:
+            t = s.targets[0]
+            if isinstance(t, ast.Name):
+                return f"DSAssign {self.local(s, t.id)} {X(s.value)}"
+            if isinstance(t, ast.Attribute) and self.is_reader(t.value) and t.attr == 'chunked_reading_mode':
+                return f"DSSetMode {X(s.value)}"
+            if isinstance(t, ast.Attribute) and isinstance(t.value, ast.Name) and not self.is_reader(t.value) and t.attr == '_byte_size':
+                return f"DSSetByteSize {cs(t.value.id)} {X(s.value)}"
+            self.fail(s, 'assignment target')
+        if isinstance(s, ast.AnnAssign) and s.simple == 1 and isinstance(s.target, ast.Name) and s.value is not None:
+            return f"DSAssign {self.local(s, s.target.id)} {X(s.value)}"
+        if isinstance(s, ast.If):
+            return f"DSIf {X(s.test)} {self.block(s.body)} {self.block(s.orelse)}"
+        if isinstance(s, ast.For) and not s.orelse and s.type_comment is None and isinstance(s.target, ast.Name):
+            it = s.iter
+            if isinstance(it, ast.Call) and isinstance(it.func, ast.Name) and it.func.id == 'range' and len(it.args) == 1 and not it.keywords:
+                self.globals_used.add('range')
+                return f"DSFor {self.local(s, s.target.id)} {X(it.args[0])} {self.block(s.body)}"
+            self.fail(s, 'for loop not over range(e)')
+        if isinstance(s, ast.While) and not s.orelse:
+            return f"DSWhile {X(s.test)} {self.block(s.body)}"
+        if isinstance(s, ast.Return) and s.value is not None:
+            return f"DSReturn {X(s.value)}"
+        if isinstance(s, ast.Try) and not s.handlers and not s.orelse and s.finalbody:
+            return f"DSTryFinally {self.block(s.body)} {self.block(s.finalbody)}"
+        self.fail(s, 'statement')
+
+    def function(self, fn):
+        a = fn.args
+        if not (len(fn.decorator_list) == 1 and isinstance(fn.decorator_list[0], ast.Name) and fn.decorator_list[0].id == 'staticmethod'):
+            self.fail(fn, 'deserialize is not a plain staticmethod')
+        if a.posonlyargs or a.vararg or a.kwarg or a.defaults or a.kwonlyargs or [x.arg for x in a.args] != ['reader']:
+            self.fail(fn, 'signature of deserialize')
+        body = fn.body[1:] if fn.body and is_doc(fn.body[0]) else fn.body
+        for n in ast.walk(fn):
+            if isinstance(n, (ast.Global, ast.Nonlocal, ast.Lambda, ast.FunctionDef, ast.ClassDef, ast.NamedExpr, ast.ListComp, ast.Delete,
+                              ast.Import, ast.ImportFrom, ast.With, ast.AugAssign)) and n is not fn:
+                self.fail(n, 'scope-changing construct')
+        out = self.block(body)
+        clash = self.assigned & (self.globals_used | {'reader'})
+        if clash:
+            self.fail(fn, f'a name used as a global is assigned in the method: {sorted(clash)}')
+        return out
+
+
+def open_enums_of(mods):
+    """names of the IntEnum classes declared `class E(IntEnum, metaclass=ProtocolEnumMeta)` (E(<any int>) succeeds)"""
+    out = set()
+    for tree in mods.values():
+        for cd in tree.body:
+            if isinstance(cd, ast.ClassDef) and any(isinstance(b, ast.Name) and b.id == 'IntEnum' for b in cd.bases) \
+                    and any(k.arg == 'metaclass' and isinstance(k.value, ast.Name) and k.value.id == 'ProtocolEnumMeta' for k in cd.keywords):
+                out.add(cd.name)
+    return out
+
+
 def enums_of(mods):
     """IntEnum classes of the package: {class name: [(member, value)]}; a name defined twice is dropped (fail closed at its uses)"""
     out, twice = {}, set()
@@ -240,7 +434,8 @@ def parse_sources(sources):
         except SyntaxError as ex:
             unparsed.append(Unparsed(path, ex.lineno or 0, path, 'syntax error'))
     enums = enums_of(mods)
-    classes = []
+    opened = open_enums_of(mods) & set(enums)
+    classes, dclasses, dunparsed = [], [], []
 
     def walk(cd, prefix):
         full = prefix + cd.name
@@ -252,6 +447,14 @@ def parse_sources(sources):
                 classes.append((full, Parser(full, enums).function(fns[0])))
             except Unparsed as u:
                 unparsed.append(u)
+        dfns = [s for s in cd.body if isinstance(s, ast.FunctionDef) and s.name == 'deserialize']
+        if len(dfns) > 1:
+            dunparsed.append(Unparsed(full, cd.lineno, full, 'deserialize defined twice'))
+        elif dfns:
+            try:
+                dclasses.append((full, DParser(full, enums, opened).function(dfns[0])))
+            except Unparsed as u:
+                dunparsed.append(u)
         for s in cd.body:
             if isinstance(s, ast.ClassDef):
                 walk(s, full + '.')
@@ -259,7 +462,7 @@ def parse_sources(sources):
         for s in tree.body:
             if isinstance(s, ast.ClassDef):
                 walk(s, '')
-    return dict(classes=classes, unparsed=unparsed, enums=enums)
+    return dict(classes=classes, unparsed=unparsed, enums=enums, dclasses=dclasses, dunparsed=dunparsed)
 
 
 def coq_parsed(classes):
@@ -279,6 +482,10 @@ if __name__ == '__main__':
     r = parse_sources(srcs)
     for u in r['unparsed']:
         print('UNPARSED', u)
+    for u in r['dunparsed']:
+        print('UNPARSED(deserialize)', u)
     for n, t in r['classes']:
         print(n, '\n   ', t)
-    print(len(r['classes']), 'classes,', len(r['unparsed']), 'unparsed')
+    for n, t in r['dclasses']:
+        print(n, '(deserialize)\n   ', t)
+    print(len(r['classes']), 'classes,', len(r['unparsed']), 'unparsed;', len(r['dclasses']), 'deserialize methods,', len(r['dunparsed']), 'unparsed')
